@@ -66,6 +66,17 @@ def rand_spec(rnd, tier="quick", zones=None, jobless_ok=True, server_types=("aut
                           country=["ref", f"c{rnd.randrange(ncty)}"],
                           devices=["refs", rnd.sample([f"d{k}" for k in range(ndev)], rnd.randint(1, ndev))],
                           hourly_usage_journey_starts=["h", [rnd.choice(START_VALUES) for _ in range(n)], rnd.choice(STARTS), "dimensionless"])
+    if nup >= 2 and rnd.random() < 0.12:
+        # two patterns whose UTC series start at the same instant and have the same length, one of them with a daylight-saving
+        # gap in its UTC index (Paris, autumn change) and the other without (Tunis): same span, different hours
+        n = rnd.choice([9, 24, 50])
+        O["cdst0"] = obj("Country", short_name=["str", "FR"], average_carbon_intensity=q(85, "g/kWh"), timezone=["tz", "Europe/Paris"])
+        O["cdst1"] = obj("Country", short_name=["str", "TN"], average_carbon_intensity=q(468, "g/kWh"), timezone=["tz", "Africa/Tunis"])
+        for up, c, st in (("up0", "cdst0", "2025-10-25T20:00:00"), ("up1", "cdst1", "2025-10-25T19:00:00")):
+            O[up]["params"]["country"] = ["ref", c]
+            O[up]["params"]["hourly_usage_journey_starts"] = ["h", [rnd.choice(START_VALUES[2:]) for _ in range(n)], st, "dimensionless"]
+        O["up1"]["params"]["usage_journey"] = O["up0"]["params"]["usage_journey"]
+        O["up1"]["params"]["network"] = O["up0"]["params"]["network"]
     O["system"] = {"cls": "System", "params": {"usage_patterns": ["refs", [f"up{i}" for i in range(nup)]]}}
     return prune({"objects": O, "system": "system"})
 
@@ -164,6 +175,8 @@ def topo_classes(spec):
     zones = {O[O[up]["params"]["country"][1]]["params"]["timezone"][1] for up in ups}
     if len(zones) > 1:
         tags.add("multi_timezone")
+    if "cdst0" in O and "cdst1" in O:
+        tags.add("same_span_dst_gap_pair")
     wins = sorted(window_utc(spec, up) for up in ups)
     for (a0, a1), (b0, b1) in zip(wins, wins[1:]):
         if b0 > a1 + timedelta(hours=14):
